@@ -289,7 +289,21 @@ def _s_window_guards(ctx):
                 d2 = _defs(f, nm)
                 if len(d2) == 1 and nm not in ("min", "self", "stream"):
                     bdef = bdef.replace(nm, src(d2[0]))
-    ok = bdef.startswith("min(") and "self.conn.max_outbound_frame_size" in bdef and "self.conn.local_flow_control_window(stream)" in bdef
+    def _is_bound(e):
+        """min(.., max_outbound_frame_size, .., window(stream), ..), possibly floored at zero: max(0, <that>) (an empty frame is never sent)"""
+        if isinstance(e, ast.Call) and isinstance(e.func, ast.Name) and not e.keywords:
+            if e.func.id == "min":
+                parts = [src(a) for a in e.args]
+                return "self.conn.max_outbound_frame_size" in parts and "self.conn.local_flow_control_window(stream)" in parts
+            if e.func.id == "max" and len(e.args) == 2:
+                zero = [a for a in e.args if isinstance(a, ast.Constant) and a.value == 0 and not isinstance(a.value, bool)]
+                rest = [a for a in e.args if a not in zero]
+                return len(zero) == 1 and len(rest) == 1 and _is_bound(rest[0])
+        return False
+    try:
+        ok = _is_bound(ast.parse(bdef, mode="eval").body)
+    except SyntaxError:
+        raise Abstain(f"the bound `{bdef}` is not an expression")
     ctx.check(ok, "clamp/send-within-bound", q + " | bound", f"the bound of a DATA frame is `{bdef}`, not min(max_outbound_frame_size, flow-control window of that stream)")
     short_edge = "F" if pol_long == "T" else "T"
     def cuts(st):
